@@ -19,7 +19,7 @@ RULE = ("A real AsyncServiceBrowser (1..2 types, delay 1/10/60 s, question type 
         "cached PTR of that type at >= 75 % of its current TTL (minus the delay); for every record that expires unrefreshed a "
         "query at 75 % (+ at most delay) and at each further 10 % step; hence no expiry without refresh attempt. Distinct = (learn "
         "order, fate, delay, #types, forced type) classes.")
-ASSUMPTIONS = ["lateness bound: the configured delay (+1 ms float slack); earliness bound: the delay (churn-avoidance rule)",
+ASSUMPTIONS = ["lateness bound for the 75 % query: the configured delay (+1 ms float slack), a query between 1x and 2x delay late is reported (known finding F22 when explained by churn rule + spacing); earliness bound: the delay (churn-avoidance rule)",
                "records whose 75 % instant falls before the end of the start-up phase (+delay) are not judged for liveness"]
 
 TYPES = ["_http._tcp.local.", "_ipp._tcp.local."]
@@ -83,6 +83,11 @@ def gen_scenario(rng: random.Random) -> Dict[str, Any]:
             frac = rng.choice([0.01, 0.5, 0.8, 0.9])
             events.append({"t": t + int(e * frac), "type": tp, "alias": alias.upper() if fate == "recase-goodbye" else alias, "ttl": 0, "what": fate})
         events[-1]["fate"] = fate
+        if rng.random() < 0.25:
+            # the same instance is also advertised under a subtype of the browsed type (usual DNS-SD practice); a browser of the
+            # base type is handed that pointer too - a second record with the same target and its own owner name, TTL and schedule
+            events.append({"t": t + rng.choice([0, 1, 300, 200000, 900000]), "type": "_printer._sub." + tp, "alias": alias,
+                           "ttl": rng.choice(TTL_CHOICES), "what": "learn-subtype", "fate": "expire"})
         t += rng.choice([0, 1, 40000, 100000, 600000, 1000000])
     events.sort(key=lambda ev: ev["t"])
     return {"types": types, "delay": delay, "forced": forced, "events": events, "order": order,
@@ -99,11 +104,11 @@ class Epoch:
 
 
 def build_epochs(events: List[Dict[str, Any]], base: float) -> List[Epoch]:
-    live: Dict[str, Epoch] = {}
+    live: Dict[Tuple[str, str], Epoch] = {}
     out: List[Epoch] = []
     for ev in events:
         t = base + ev["t"]
-        key = ev["alias"].lower()
+        key = (ev["type"].lower(), ev["alias"].lower())      # a record is identified by owner name and target
         cur = live.get(key)
         if cur is not None and cur.end <= t:
             cur = None            # already expired (maybe not yet purged; a new record then refreshes the cached object)
@@ -116,17 +121,17 @@ def build_epochs(events: List[Dict[str, Any]], base: float) -> List[Epoch]:
             continue
         if cur is not None:
             cur.end, cur.end_reason = t, "refreshed"
-        ep = Epoch(ev["type"], key, t, ttl)
+        ep = Epoch(ev["type"], key[1], t, ttl)
         live[key] = ep
         out.append(ep)
     return out
 
 
-def run_scenario(res: Result, seed: int) -> None:
+def run_scenario(res: Result, seed: int, sc: Optional[Dict[str, Any]] = None) -> None:
     from zeroconf import DNSQuestionType, ServiceListener
     from zeroconf.asyncio import AsyncServiceBrowser
     rng = random.Random(seed)
-    sc = gen_scenario(rng)
+    sc = sc or gen_scenario(rng)
     res.evaluations += 1
     removed: List[Tuple[float, str]] = []
 
@@ -286,6 +291,20 @@ def analyse(res: Result, sim: simnet.Sim, sc: Dict[str, Any], out: Dict[str, Any
         # Lateness bound: the churn-avoidance rule may keep a schedule up to `delay` after the ideal instant and the minimum
         # spacing after another query may add up to `delay` more.
         first = [q for q in ts if due - delay - 1.0 <= q <= due + 2 * delay + 1.0]
+        if first and not [q for q in first if q <= due + delay + 1.0]:
+            # more than `delay` late (but within 2 x delay).  Mechanism of known finding F22: the schedule of an earlier epoch of
+            # this record was kept by the churn-avoidance rule (new 75 % instant earlier by at most `delay`) AND the query then
+            # waited up to `delay` more for the minimum spacing after another pass of the scheduler.
+            q0 = first[0]
+            # decomposition: some earlier epoch of this record had its 75 % instant K in (due, due+delay] (churn band: that
+            # schedule was kept) and the query left within `delay` after K (minimum spacing after another scheduler pass)
+            kept_dues = [o.created + 750.0 * o.ttl for o in epochs if o is not ep and o.alias == ep.alias and o.type.lower() == ep.type.lower()
+                         and o.created < ep.created and due < o.created + 750.0 * o.ttl <= due + delay + 1.0]
+            explained = any(k - 1.0 <= q0 <= k + delay + 1.0 for k in kept_dues)
+            viol("c10.liveness", "refresh_query_late", "PTR %s (ttl %d, learned +%.0f ms): first refresh query %.0f ms after its 75 %% instant, "
+                 "the configured delay is %.0f ms (kept schedule(s) of earlier epochs at %r ms after that instant)" % (
+                     ep.alias, ep.ttl, ep.created - B, q0 - due, delay, [round(k - due) for k in kept_dues]),
+                 mechanism="churn_rule_plus_spacing" if explained else "other")
         if not first:
             nearest = min(ts, key=lambda q: abs(q - due)) if ts else None
             viol("c10.liveness", "no_refresh_query_at_75pct",
@@ -308,6 +327,24 @@ def analyse(res: Result, sim: simnet.Sim, sc: Dict[str, Any], out: Dict[str, Any
     # Removed-by-expiry events must correspond to expired epochs
     fates = sorted({ev.get("fate", "-") for ev in sc["events"] if "fate" in ev})
     res.cls("scenario", sc["order"], "+".join(fates)[:60], "delay=%d" % sc["delay"], "types=%d" % len(sc["types"]), "forced=%s" % sc["forced"])
+
+
+def witness_scenario() -> Dict[str, Any]:
+    """Stored witness of known finding F22: a pointer re-learned twice within 0.5 s, the second time with a TTL that moves its
+    75 % instant 55.75 s earlier - inside the churn-avoidance band (delay 60 s), so the later schedule is kept - and a pointer
+    of a second type whose own refresh query goes out 18.75 s before that schedule: the minimum spacing pushes the query for
+    the first record to 97 s after its 75 % instant."""
+    return {"types": ["_http._tcp.local.", "_ipp._tcp.local."], "delay": 60000, "forced": None, "order": "witness",
+            "events": [{"t": 0, "type": "_http._tcp.local.", "alias": "inst0._http._tcp.local.", "ttl": 120, "what": "learn"},
+                       {"t": 562500, "type": "_http._tcp.local.", "alias": "inst0._http._tcp.local.", "ttl": 1200, "what": "refresh-twice"},
+                       {"t": 563000, "type": "_http._tcp.local.", "alias": "inst0._http._tcp.local.", "ttl": 120, "what": "refresh-twice", "fate": "refresh-twice"},
+                       {"t": 600000, "type": "_ipp._tcp.local.", "alias": "inst1._ipp._tcp.local.", "ttl": 120, "what": "learn", "fate": "expire"}]}
+
+
+def witnesses(spec):
+    res = Result()
+    run_scenario(res, 77, witness_scenario())
+    return res
 
 
 def run_shard(spec):
